@@ -31,6 +31,15 @@ def main():
     tier = args.tier if args.tier in ('quick', 'thorough') else 'quick'
     seed = int(os.environ.get('VERIF_SEED', '0') or 0)
     os.environ['PYTHONHASHSEED'] = '0'
+    # the implementation draws from Python's and numpy's global generators (random_int_iter, nestle ...): seed them so
+    # that a run is reproducible; the drivers themselves only use ctx.rng
+    import random as _random
+    _random.seed(seed)
+    try:
+        import numpy as _np
+        _np.random.seed(seed % (2 ** 32))
+    except Exception:
+        pass
     ctx = C.Ctx(prop, tier, seed)
     mod = importlib.import_module(prop.lower())
     meta = getattr(mod, 'META', {})
